@@ -18,7 +18,27 @@ SatSide(s, x) == IF s.cls = "CNF" THEN SatCNF(x, s.clauses) ELSE SatOPB(x, s.con
 WFSide(s) == IF s.cls = "CNF" THEN WellFormed(s.nvars, s.clauses) ELSE WellFormedPB(s.nvars, s.constraints)
 Cands(r) == IF "cand" \in DOMAIN r THEN Range(r.cand) ELSE Assignments(r.a.nvars)
 
+\* Strict comparison (C17): same formula class, same variables and names, and the same
+\* clauses / constraints as multisets (clause = set of literals; constraint = set of
+\* <<coefficient, literal>> terms with relation and degree).
+Item(s, j) == IF s.cls = "CNF" THEN ClauseSet(s.clauses[j])
+              ELSE <<Range(s.constraints[j].terms), s.constraints[j].op, s.constraints[j].deg>>
+Size(s) == IF s.cls = "CNF" THEN Len(s.clauses) ELSE Len(s.constraints)
+Items(s) == {Item(s, j) : j \in 1..Size(s)}
+Mult(s, x) == Cardinality({j \in 1..Size(s) : Item(s, j) = x})
+SameBag(s, t) == Size(s) = Size(t) /\ Items(s) = Items(t) /\ \A x \in Items(s) : Mult(s, x) = Mult(t, x)
+
+VerdictStrict(r) ==
+    IF r.a.outcome # r.b.outcome THEN "command_line_and_library_call_end_differently"
+    ELSE IF r.a.outcome # "ok" THEN "ok"
+    ELSE IF r.a.cls # r.b.cls THEN "different_formula_class"
+    ELSE IF r.a.nvars # r.b.nvars THEN "different_number_of_variables"
+    ELSE IF r.a.labels # r.b.labels THEN "different_variable_names"
+    ELSE IF ~SameBag(r.a, r.b) THEN "different_clauses"
+    ELSE "ok"
+
 Verdict(r) ==
+    IF "strict" \in DOMAIN r THEN VerdictStrict(r) ELSE
     IF r.a.outcome # r.b.outcome THEN "one_tool_fails_where_the_other_succeeds"
     ELSE IF r.a.outcome # "ok" THEN "ok"          \* both refuse alike: nothing to compare
     ELSE IF r.a.nvars # r.b.nvars THEN "different_number_of_variables"
